@@ -754,6 +754,7 @@ pub fn mtgraph_run(src: &mut Src, ctx: &mut RunCtx, prop: &'static str, c07: Opt
     let small = *src.pick(&SMALL_SIZES);
     let mut recipe = gen_recipe(src, small, if c07.is_some() { 3 } else if crate::engine::deep() { 9 } else { 6 });
     let mut fail_pos = None;
+    let mut bystander = false;
     match &c07 {
         Some(C07Mode::Cancel) => {
             recipe.infinite = src.chance(2, 3);
@@ -761,7 +762,11 @@ pub fn mtgraph_run(src: &mut Src, ctx: &mut RunCtx, prop: &'static str, c07: Opt
         }
         Some(C07Mode::Fail) | Some(C07Mode::FailCancel) => {
             let pos = src.below(recipe.stages.len() + 1);
-            let k = src.range(1, 6) as u64;
+            // With the endless bystander chain the failure has to be certain
+            // (nothing else ever ends that graph): the block fails on its
+            // first call, which every block thread makes.
+            bystander = matches!(c07, Some(C07Mode::Fail)) && src.coin();
+            let k = if bystander { 1 } else { src.range(1, 6) as u64 };
             // Insert outside diamonds.
             recipe.stages.insert(pos, Stage::Fail(k));
             fail_pos = Some((pos, k));
@@ -821,6 +826,18 @@ pub fn mtgraph_run(src: &mut Src, ctx: &mut RunCtx, prop: &'static str, c07: Opt
         *ff2.lock().unwrap() = built.fail_flags.first().cloned();
         let mut blocks: Vec<Box<dyn Block + Send>> = Vec::new();
         let token_slot = Arc::new(Mutex::new(None));
+        if bystander {
+            // An independent endless chain in the same graph: it never ends by
+            // itself, only through the cancellation a failure must trigger.
+            let (s, r) = rustradio::blocks::ConstantSource::<u8>::new(7);
+            built.blocks.push(Box::new(s));
+            built.blocks.push(Box::new(rustradio::blocks::NullSink::new(r)));
+        }
+        if let Some(f) = built.fail_flags.first() {
+            let mut g = s2.lock();
+            g.watch = Some(f.clone());
+            g.watch_bound = 300_000;
+        }
         for b in std::mem::take(&mut built.blocks) {
             let name = b.block_name().to_string();
             let b: Box<dyn Block + Send> = if self_cancel && name == "FailAt" {
@@ -888,7 +905,7 @@ pub fn mtgraph_run(src: &mut Src, ctx: &mut RunCtx, prop: &'static str, c07: Opt
             if let Some(v) = abort_violation(prop, a, &g, fair) {
                 return Err(v);
             }
-            if a == Abort::StepBudget || a == Abort::Stalled {
+            if a == Abort::StepBudget || a == Abort::Stalled || a == Abort::Deadline {
                 drop(g);
                 ctx.count("inconclusive_budget_or_unfair_stall");
             }
